@@ -7,8 +7,10 @@ package main
 //   ghostHttpWrites int    number of responses written
 
 import (
+	"fmt"
 	"go/token"
 	"go/types"
+	"os"
 
 	"golang.org/x/tools/go/ssa"
 )
@@ -48,5 +50,217 @@ func init() {
 			p := Fresh("app.processor", BV64)
 			ex.assume(pc, And(Not(Eq(p, C64(0))), ULt(p, st.next)))
 			return VPtr{T: p}, pc
+		})
+}
+
+// ---- routing (C13) ---------------------------------------------------------------------------------
+// Ghost component G|gin.guarded: the router groups on which an authorisation middleware has been
+// installed (RouterGroup.Use with a handler whose body calls (*RouterAuthorizationCheck).Check).
+// Assumed gin semantics: a middleware installed on a group with Use runs before every handler
+// registered on that group *afterwards*; Group() creates a group that inherits its parent's middleware.
+
+const compGuarded = "G|gin.guarded"
+
+func init() {
+	compSorts[compGuarded] = heldSort
+	objectKeyedGhost[compGuarded] = true
+	grp := "(*github.com/gin-gonic/gin.RouterGroup)."
+	regExtern(grp+"Group", "RouterGroup.Group(prefix): a new group that inherits the middleware of its parent",
+		func(ex *Exec, fr *Frame, st *State, pc *Term, fn *ssa.Function, args []Value, pos token.Pos) (Value, *Term) {
+			parent := lockID(args[0])
+			p := ex.alloc(st, pc)
+			if os.Getenv("GOVC_DEBUG_GIN") != "" {
+				fmt.Fprintf(os.Stderr, "gin.Group parent %s new %s\n", parent, p)
+			}
+			g := st.comp(compGuarded, heldSort)
+			ex.noteWrite(compGuarded)
+			st.setComp(compGuarded, Store(g, Mul(p, C64(4096)), Select(g, parent)))
+			return VPtr{T: p}, pc
+		})
+	externWrites[grp+"Group"] = []string{"next", compGuarded}
+	regExtern(grp+"Use", "RouterGroup.Use(handlers...): installs the middleware; the group counts as guarded when a handler is a function literal whose body calls (*RouterAuthorizationCheck).Check on its gin context (read from the call site in the current source)",
+		func(ex *Exec, fr *Frame, st *State, pc *Term, fn *ssa.Function, args []Value, pos token.Pos) (Value, *Term) {
+			id := lockID(args[0])
+			if os.Getenv("GOVC_DEBUG_GIN") != "" {
+				fmt.Fprintf(os.Stderr, "gin.Use on %s auth=%v site=%v\n", id, usesAuthMiddleware(ex.curInstr), ex.curInstr)
+			}
+			if usesAuthMiddleware(ex.curInstr) {
+				g := st.comp(compGuarded, heldSort)
+				ex.noteWrite(compGuarded)
+				st.setComp(compGuarded, Store(g, id, True))
+			}
+			return freshResults(ex, st, pc, fn, "gin.use"), pc
+		})
+	externWrites[grp+"Use"] = []string{compGuarded}
+	for _, m := range []string{"GET", "POST", "PUT", "PATCH", "DELETE", "OPTIONS", "HEAD", "Any", "Handle"} {
+		regExtern(grp+m, "RouterGroup."+m+": registers a route; obligation: the group is guarded by the authorisation middleware at this point",
+			func(ex *Exec, fr *Frame, st *State, pc *Term, fn *ssa.Function, args []Value, pos token.Pos) (Value, *Term) {
+				id := lockID(args[0])
+				g := st.comp(compGuarded, heldSort)
+				ex.oblige(fr, "route", "route registered on a group without the authorisation middleware: "+ex.srcText(pos), pos, pc, Select(g, id), ex.safetyProps)
+				return freshResults(ex, st, pc, fn, "gin.route"), pc
+			})
+	}
+	regExtern("github.com/free5gc/util/logger.NewGinWithLogrus", "NewGinWithLogrus: a new engine without authorisation middleware",
+		func(ex *Exec, fr *Frame, st *State, pc *Term, fn *ssa.Function, args []Value, pos token.Pos) (Value, *Term) {
+			p := ex.alloc(st, pc)
+			// no group inside a new engine is guarded
+			g := st.comp(compGuarded, heldSort)
+			k := Bound("k", BV64)
+			ng := Fresh("gin.guarded", heldSort)
+			ex.assume(pc, Forall([]*Term{k}, Eq(Select(ng, k), And(Select(g, k), Or(ULt(k, Mul(p, C64(4096))), ULe(Mul(Add(p, C64(1)), C64(4096)), k)))), []*Term{Select(ng, k)}))
+			ex.noteWrite(compGuarded)
+			st.setComp(compGuarded, ng)
+			return VPtr{T: p}, pc
+		})
+	externWrites["github.com/free5gc/util/logger.NewGinWithLogrus"] = []string{"next", compGuarded}
+}
+
+// usesAuthMiddleware: the Use call at this site passes a function literal that calls
+// (*RouterAuthorizationCheck).Check
+func usesAuthMiddleware(site ssa.Instruction) bool {
+	call, ok := site.(ssa.CallInstruction)
+	if !ok {
+		return false
+	}
+	cc := call.Common()
+	if len(cc.Args) < 2 {
+		return false
+	}
+	sl, ok := cc.Args[len(cc.Args)-1].(*ssa.Slice)
+	if !ok {
+		return false
+	}
+	arr, ok := sl.X.(*ssa.Alloc)
+	if !ok || arr.Referrers() == nil {
+		return false
+	}
+	found := false
+	for _, r := range *arr.Referrers() {
+		ia, ok := r.(*ssa.IndexAddr)
+		if !ok || ia.Referrers() == nil {
+			continue
+		}
+		for _, u := range *ia.Referrers() {
+			s, ok := u.(*ssa.Store)
+			if !ok {
+				continue
+			}
+			var f *ssa.Function
+			switch v := s.Val.(type) {
+			case *ssa.MakeClosure:
+				f, _ = v.Fn.(*ssa.Function)
+			case *ssa.Function:
+				f = v
+			case *ssa.ChangeType:
+				switch w := v.X.(type) {
+				case *ssa.MakeClosure:
+					f, _ = w.Fn.(*ssa.Function)
+				case *ssa.Function:
+					f = w
+				}
+			}
+			if f == nil {
+				continue
+			}
+			for _, b := range f.Blocks {
+				for _, in := range b.Instrs {
+					if ci, ok := in.(ssa.CallInstruction); ok {
+						if cal := ci.Common().StaticCallee(); cal != nil && cal.Name() == "Check" && cal.Signature.Recv() != nil &&
+							types.TypeString(cal.Signature.Recv().Type(), nil) == "*github.com/free5gc/chf/internal/util.RouterAuthorizationCheck" {
+							// the context handed to Check is the handler's own gin context
+							if len(f.Params) > 0 && len(ci.Common().Args) > 1 && isParamValue(ci.Common().Args[1], f.Params[0]) {
+								found = true
+							}
+						}
+					}
+				}
+			}
+		}
+	}
+	return found
+}
+
+func init() {
+	regExtern("github.com/free5gc/chf/internal/sbi.ServerChf.Config", "ServerChf.Config(): the configuration the application was started with: non-nil and satisfying the presence predicate of its valid tags (Config.Validate succeeded)",
+		func(ex *Exec, fr *Frame, st *State, pc *Term, fn *ssa.Function, args []Value, pos token.Pos) (Value, *Term) {
+			p := Fresh("app.config", BV64)
+			ex.assume(pc, And(Not(Eq(p, C64(0))), ULt(p, st.next)))
+			// the application only starts with a configuration that passed Config.Validate
+			for _, pkg := range ex.V.prog.AllPackages() {
+				if pkg.Pkg.Path() == "github.com/free5gc/chf/pkg/factory" {
+					if tn, ok := pkg.Members["Config"].(*ssa.Type); ok {
+						pt := types.NewPointer(tn.Type())
+						ex.assume(pc, ex.validatedPred(st, pc, pt, VPtr{T: p}, 0))
+					}
+				}
+			}
+			return VPtr{T: p}, pc
+		})
+	regExtern("github.com/free5gc/chf/internal/sbi.ServerChf.Context", "ServerChf.Context(): the CHF context, non-nil",
+		func(ex *Exec, fr *Frame, st *State, pc *Term, fn *ssa.Function, args []Value, pos token.Pos) (Value, *Term) {
+			p := Fresh("app.context", BV64)
+			ex.assume(pc, And(Not(Eq(p, C64(0))), ULt(p, st.next)))
+			return VPtr{T: p}, pc
+		})
+	regExtern("github.com/free5gc/chf/internal/context.NFContext.AuthorizationCheck", "NFContext.AuthorizationCheck(token, service): any error result; ghostAuthRejected records whether it was non-nil",
+		func(ex *Exec, fr *Frame, st *State, pc *Term, fn *ssa.Function, args []Value, pos token.Pos) (Value, *Term) {
+			rej := Fresh("auth.rejected", BoolSort)
+			if g, ok := ex.ghostVar(fr, "ghostAuthRejected"); ok {
+				ex.ghostStore(st, g, VBool{rej})
+			}
+			tag := Const(typeTag(types.Universe.Lookup("error").Type())+1003, 64)
+			pay := Fresh("auth.err", BV64)
+			return VIface{Ite(rej, tag, C64(0)), Ite(rej, pay, C64(0))}, pc
+		})
+	regExtern("(*github.com/gin-gonic/gin.Context).Abort", "gin.Context.Abort: no later handler of the chain runs (ghostAborted)",
+		func(ex *Exec, fr *Frame, st *State, pc *Term, fn *ssa.Function, args []Value, pos token.Pos) (Value, *Term) {
+			if g, ok := ex.ghostVar(fr, "ghostAborted"); ok {
+				ex.ghostStore(st, g, VBool{True})
+			}
+			return VTuple{}, pc
+		})
+	regPrefix("(net/http.Header).", "http.Header accessors: opaque", pureOpaque)
+}
+
+// isParamValue: v is the parameter itself or a load of the cell the parameter is spilled to (naive SSA form)
+func isParamValue(v ssa.Value, p *ssa.Parameter) bool {
+	if v == ssa.Value(p) {
+		return true
+	}
+	ld, ok := v.(*ssa.UnOp)
+	if !ok || ld.Op != token.MUL {
+		return false
+	}
+	cell, ok := ld.X.(*ssa.Alloc)
+	if !ok || cell.Referrers() == nil {
+		return false
+	}
+	stores := 0
+	fromParam := false
+	for _, r := range *cell.Referrers() {
+		if st, ok := r.(*ssa.Store); ok && st.Addr == ssa.Value(cell) {
+			stores++
+			if st.Val == ssa.Value(p) {
+				fromParam = true
+			}
+		}
+	}
+	return stores == 1 && fromParam
+}
+
+func init() {
+	regExtern("github.com/free5gc/openapi/oauth.VerifyOAuth", "oauth.VerifyOAuth(token, service, cert): any error result (assumed to reject a missing, malformed or wrongly signed token); ghostTokenVerified := true, ghostTokenRejected := (result != nil)",
+		func(ex *Exec, fr *Frame, st *State, pc *Term, fn *ssa.Function, args []Value, pos token.Pos) (Value, *Term) {
+			rej := Fresh("oauth.rejected", BoolSort)
+			if g, ok := ex.ghostVar(fr, "ghostTokenVerified"); ok {
+				ex.ghostStore(st, g, VBool{True})
+			}
+			if g, ok := ex.ghostVar(fr, "ghostTokenRejected"); ok {
+				ex.ghostStore(st, g, VBool{rej})
+			}
+			tag := Const(typeTag(types.Universe.Lookup("error").Type())+1004, 64)
+			pay := Fresh("oauth.err", BV64)
+			return VIface{Ite(rej, tag, C64(0)), Ite(rej, pay, C64(0))}, pc
 		})
 }
